@@ -40,6 +40,7 @@ func init() {
 			{"C02-R8", "a global push is enqueued for every registered connection (shared with C05-R2b)", func(c *Ctx) { startPushFanOut(c); c.Floor(2) }},
 			{"C02-R9", "the quiet timer of a batch is armed by its first event only", c02r9},
 			{"C02-R10", "Forced is consulted before a request is narrowed by its keys", c02r10},
+			{"C02-R11", "the snapshot of a merged request is chosen by age, not by position", c02r11},
 		},
 	})
 }
@@ -232,6 +233,12 @@ func c02r1(c *Ctx) {
 				return
 			}
 			n++
+			if snapshotComparedByAge(fn, s, pushF) {
+				// the choice is made by comparing the two snapshots: R11 decides it; "the later operand's" is this rule's
+				// reading of the code's own presumption that the second operand is the newer one
+				c.Check(fn.Name()+":Push is the later operand's snapshot", s.Pos(), true, "")
+				return
+			}
 			why := snapshotChoice(fn, s.Val, s.Block(), fn.Params[0], fn.Params[1], pushF, 0)
 			c.Check(fn.Name()+":Push is the later operand's snapshot", s.Pos(), why == "", why+": a merged request can carry an older snapshot than one of the requests it replaced, so the proxy misses the update that request announced while the keys and Forced flag look merged correctly")
 		})
